@@ -193,9 +193,12 @@ def compare_case(header, ops, real, ms, proj_model, proj_spec):
         if k_idx is None and proj_model(r) != proj_model(mo):
             k_idx = i
         if f_idx is None and so != "-":
-            ps, pr = proj_spec(so), proj_spec(r)
-            if ps is not None and ps != pr:
+            if so.startswith("!"):          # trace monitor: the real answer violates the property here
                 f_idx = i
+            else:                           # functional spec: expected value
+                ps, pr = proj_spec(so), proj_spec(r)
+                if ps is not None and ps != pr:
+                    f_idx = i
         if k_idx is not None and f_idx is not None:
             break
     return k_idx, f_idx
@@ -212,8 +215,15 @@ def run_seq(suite, seed, ncases, workdir, proj_model=ident, proj_spec=ident, rep
     cases_p = os.path.join(workdir, suite + ".cases")
     real_p = os.path.join(workdir, suite + ".real")
     model_p = os.path.join(workdir, suite + ".model")
-    run_driver(cases_p, model_p)
-    cl, rl, ml = read_lines(cases_p), read_lines(real_p), read_lines(model_p)
+    cl, rl = read_lines(cases_p), read_lines(real_p)
+    comb_p = os.path.join(workdir, suite + ".combined")
+    with open(comb_p, "w") as f:      # op lines followed by "> <real answer>" for the trace monitors
+        for c, r in zip(cl, rl):
+            f.write(c + "\n")
+            if not (c.startswith("case ") or c == "end"):
+                f.write("> " + r + "\n")
+    run_driver(comb_p, model_p)
+    ml = read_lines(model_p)
     res = SeqResult()
     if not (len(cl) == len(rl) == len(ml)):
         raise RuntimeError("stream length mismatch %d/%d/%d in %s" % (len(cl), len(rl), len(ml), workdir))
